@@ -13,6 +13,7 @@ print_ output must equal to_string.
 
 import math
 import os
+import sys
 
 import numpy as np
 import wcwidth
@@ -52,7 +53,22 @@ def _values(rng, kind, n):
         return [rng.choice(pool) for _ in range(n)]
     return gen.gen_values(rng, kind, n, rng.choice(gen.NA_PATTERNS), "few", 0.4)
 
+FRESH_CHILD = r"""
+import sys, json, os
+os.environ.pop("COLUMNS", None)
+import numpy as np, dataiter as di
+vals, narrow, wide = json.loads(sys.argv[1]), sys.argv[2], sys.argv[3]
+v = di.Vector(np.array(vals, dtype=narrow).astype(wide))
+sys.stdout.write(v.to_string())
+"""
+
 def generate(rng, tier):
+    if rng.random() < 0.004:
+        # rendering leaves no trace: a float vector looks the same in a fresh process as here, after its twin of another precision
+        # (the same numbers as float16 / float32) was rendered first
+        narrow = rng.choice(["float32", "float32", "float16"])
+        return {"cls": "fresh-process-twin", "settings": {}, "columns_env": None, "narrow": narrow, "wide": rng.choice(["float64", "float64", "float32"] if narrow == "float16" else ["float64"]),
+                "values": [round(rng.uniform(-50, 50), rng.choice([1, 2, 3])) for _ in range(rng.randint(1, 6))]}
     cls = rng.choice(["vector", "frame", "frame", "geojson", "lod"])
     settings = {}
     if rng.random() < 0.3: settings["PRINT_FLOAT_PRECISION"] = rng.choice([0, 2, 10])
@@ -200,7 +216,32 @@ def _try(res, what, feat, f, ctx):
         res.violate(f"{what}:raised:{exc_name(e)}:{feat}", f"{what} raised {e!r}; {ctx}")
         return False, None
 
+def _fresh_twin(di, case, res):
+    import subprocess, json
+    narrow, wide, vals = case["narrow"], case["wide"], case["values"]
+    res.sig = f"fresh-process-twin|{narrow}|{wide}|{len(vals)}"
+    res.nontrivial = True
+    a = np.array(vals, dtype=narrow)
+    here_narrow = di.Vector(a).to_string()
+    here_wide = di.Vector(a.astype(wide)).to_string()
+    env = dict(os.environ)
+    env.pop("COLUMNS", None)
+    try:
+        r = subprocess.run([sys.executable, "-c", FRESH_CHILD, json.dumps(vals), narrow, wide], capture_output=True, text=True, timeout=300, env=env)
+    except subprocess.TimeoutExpired:
+        res.skip("fresh process timed out")
+        return
+    if r.returncode != 0:
+        res.violate("fresh-process:raised", f"rendering {vals} as {narrow}->{wide} in a fresh process failed: {r.stderr[-300:]}")
+        return
+    if r.stdout != here_wide:
+        res.violate("rendering-depends-on-what-was-rendered-before", f"Vector(np.array({vals}, {narrow}).astype({wide})) renders as {r.stdout!r} in a fresh process but as {here_wide!r} here, "
+                    f"after the {narrow} vector {here_narrow!r} was rendered")
+    res.count("fresh-process-renderings-compared")
+
 def _run(di, case, res):
+    if case["cls"] == "fresh-process-twin":
+        return _fresh_twin(di, case, res)
     cls, settings = case["cls"], case["settings"]
     opts = {k: v for k, v in case.get("opts", {}).items() if v is not None}
     if cls == "vector":
